@@ -121,6 +121,11 @@ def build(tier):
             import ast
             return z3.Not(self.same) if isinstance(op, ast.NotEq) else self.same
 
+        def getattr(self, ex, st, name):
+            if name == "optimizers":               # the saved registry already knows the agent's optimizer (EvolvableAlgorithm.__setattr__)
+                return [Obj(REG + "OptimizerConfig", {"name": "optimizer"}, label="saved_optimizer_config")]
+            raise Undecided(f"registry attribute {name}")
+
     def post(agent):
         out = []
         for n in names:
@@ -148,6 +153,49 @@ def build(tier):
                raises={"ValueError": "not same_registry"}, raises_iff=True,
                ensures_raise={"ValueError": ["untouched(self)"]},
                ensures=["ckpt_post(self)"], replay="c07:roundtrip")
+
+    # ---- the class-method path: EvolvableAlgorithm.load(path) builds a NEW agent of the class from the same dictionary.  Same
+    # postcondition as load_checkpoint, stated over the returned agent; the constructor gets exactly the saved constructor arguments.
+    made = {}
+
+    class AgentCls:
+        def getattr(self, ex, st, name):
+            if name == "__init__":
+                return Opaque("cls.__init__")
+            raise Undecided(f"class attribute {name}")
+
+        def call(self, ex, st, args, kwargs):
+            agent = Obj(BASE, label="loaded")
+            agent.fields.update(dict(device=kwargs.get("device", "cpu"), accelerator=kwargs.get("accelerator"), torch_compiler=None,
+                                     lr=kwargs.get("lr", z3.Real("default.lr")), fitness=[], steps=[0], index=kwargs.get("index", 0),
+                                     registry=Obj(REG + "MutationRegistry", {"groups": [], "optimizers": []}, label="registry"),
+                                     actor=C01.NetM("actor"), actor_target=C01.NetM("actor_target"), optimizer=Opaque("fresh-optimizer"),
+                                     mutation_hook=Fn(model=lambda ex, st, a, k: log.append(("hook", {n: (isinstance(agent.fields[n], NetR) and agent.fields[n].loaded_from is None)
+                                                                                                       for n in names})), name="mutation_hook")))
+            made["agent"], made["kwargs"] = agent, dict(kwargs)
+            return agent
+
+    def load_setup(ex, st, fr):
+        setup(ex, st, fr)
+        made.clear()
+        P.lib["inspect.signature"] = lambda ex, st, a, k: Obj("inspect.Signature", {"parameters": {"self": 0, "lr": 0, "index": 0, "device": 0, "accelerator": 0}}, label="sig")
+        P.lib[BASE + ".inspect_attributes"] = lambda ex, st, a, k: {"lr": 0, "fitness": 0, "steps": 0, "index": 0}
+        st.locals.clear()
+        st.locals.update(dict(cls=AgentCls(), path="ckpt.pt", device="cpu", accelerator=None))
+    P.lib["agilerl.algorithms.core.base.chkpt_attribute_to_device"] = lambda ex, st, a, k: a[0]
+    P.lib["agilerl.utils.algo_utils.chkpt_attribute_to_device"] = lambda ex, st, a, k: a[0]
+
+    def load_post(res):
+        if made.get("agent") is None or res is not made["agent"]:
+            return z3.BoolVal(False)
+        kw = made["kwargs"]
+        ctor = z3.And(z3.BoolVal(set(kw) <= {"lr", "index", "device", "accelerator"} and "lr" in kw and "index" in kw),
+                      z3ify(kw.get("lr", 0)) == saved["lr"], z3ify(kw.get("index", 0)) == z3.Int("saved.index"))
+        reg = res.fields.get("registry")
+        return z3.And(ctor, post(res), z3.BoolVal(isinstance(reg, RegTok)), z3.BoolVal(res.fields["steps"] is not None and len(res.fields["steps"]) == 1),
+                      z3ify(res.fields["steps"][0]) == z3.Int("saved.steps"))
+    P.specns["load_post"] = load_post
+    P.contract(BASE + ".load", setup=load_setup, params={}, requires=[], frame_fields=False, ensures=["load_post(result)"], replay="c07:roundtrip")
 
     # OptimizerWrapper.load_state_dict alone
     sd_state, sd_lr = [C01.TensorT(z3.Real("sd.exp_avg"))], z3.Real("sd.lr")
@@ -237,6 +285,6 @@ def build(tier):
                                "weights incl. targets, optimizer state and settings, bookkeeping, greedy actions; 3 further learn steps on both"))
     P.trusted += ["torch.save/torch.load(dill) return a value-faithful copy of the saved dictionary", "identity/optimizer model of C01; torch.optim constructor contract"]
     P.assumptions += ["checkpoint layout of two networks with prefixing names and one optimizer (get_checkpoint_dict is proved to write exactly the keys load_checkpoint reads); multi-agent lists not covered"]
-    P.uncovered += ["EvolvableAlgorithm.load (class-method path): native adapter only",
+    P.uncovered += ["EvolvableAlgorithm.load: agent wrappers (wrapper_cls) and module lists; a hook that REPLACES a network attribute (load re-assigns the pre-hook objects)",
                     "behavioural equivalence after loading (greedy actions, continued learning): bounded native", "crash points while saving"]
     return P
